@@ -502,6 +502,7 @@ func (r *run) drain(se *session, wait time.Duration) int {
 			if err != nil {
 				var pe *svc.PackError
 				if errors.As(err, &pe) {
+					r.s.Param(fmt.Sprintf("unreadable-reply-s%d", se.idx), pe.Err.Error())
 					if !r.faulty && r.f != FocusC12 {
 						r.fail("reply-unreadable", "session %d received a datagram from the relay that its protocol client cannot unpack: %v", se.idx, pe.Err)
 						return n
